@@ -26,7 +26,10 @@ leaf branch; the datapoint passed upwards is `(b.N - 1)*(b.V - oldV) + b.V`; POM
 `in[i] > p` (so never a zero entry) or the fallback `d-1`.
   mctsAdvGuard / pomcpAdvGuard : `sampleAction(a, key, horizon)` tests `a >= graph_.children.size()` (and restarts) before it
         indexes `graph_.children[a]` (repaired, fixes/C19-3) or indexes unconditionally (as first read: undefined behaviour on a
-        planner that has not been called yet).  Any other opening of the function is an ExtractError."""
+        planner that has not been called yet).  Any other opening of the function is an ExtractError.
+  rpomcpLeafV : the leaf branch of `rPOMCP::simulate` averages the datapoint it passes upwards into the leaf's own `V`
+        (repaired, fixes/C19-4) or leaves `V` alone (as first read: a later descent through the node then adds `N` copies of
+        the new value on top of the leaf datapoints, and action values leave the range of achievable returns)."""
 import re
 import extract as E
 
@@ -160,8 +163,10 @@ def check_graph(gs, rs, ps, prob):
     nrb = norm(rb)
     need('ot->second.updateBeliefAndKnowledge(s1);' in nrb and nrb.index('ot->second.updateBeliefAndKnowledge(s1);') < nrb.index('if(depth+1<maxDepth_'),
          'rPOMCP::simulate: the child does not receive its particle before the depth test')
-    need(re.search(r'else\{ot->second\.N\+=1;if\(depth\+1>=maxDepth_\)immAndFutureRew=ot->second\.getKnowledgeMeasure\(\);\}', nrb),
-         'rPOMCP::simulate: leaf branch is not `N += 1; if (depth + 1 >= maxDepth_) datapoint = knowledge measure`')
+    m = re.search(r'else\{ot->second\.N\+=1;if\(depth\+1>=maxDepth_\)immAndFutureRew=ot->second\.getKnowledgeMeasure\(\);'
+                  r'(ot->second\.V\+=\(immAndFutureRew-ot->second\.V\)/static_cast<double>\(ot->second\.N\);)?\}', nrb)
+    need(m, 'rPOMCP::simulate: leaf branch is not `N += 1; if (depth + 1 >= maxDepth_) datapoint = knowledge measure; [V += (datapoint - V) / N]`')
+    leaf_v = m.group(1) is not None
     need('return(b.N-1)*(b.V-oldV)+b.V;' in nrb, 'rPOMCP::simulate: the datapoint passed upwards is not (b.N - 1)*(b.V - oldV) + b.V')
     # POMCP: root belief
     need('belief.push_back(sampleProbability(S,b,rand_));' in norm(ps) and 'S(model_.getS())' in norm(ps),
@@ -171,7 +176,7 @@ def check_graph(gs, rs, ps, prob):
     pb = norm(block_at(prob, prob.index('{', m.end() - 1)))
     need(pb == '{doublep=probabilityDistribution(generator);for(size_ti=0;i<d;++i){if(in[i]>p)returni;p-=in[i];}returnd-1;}',
          'dense sampleProbability: unexpected shape')
-    return walk_stop, draw_lo
+    return walk_stop, draw_lo, leaf_v
 
 
 def adv_guard(src, header_re, guarded_re, plain_re, what):
@@ -214,7 +219,7 @@ def gen_c19():
     padv = adv_guard(ps, r'size_t\s+POMCP<M>::sampleAction\s*\(\s*const\s+size_t\s+a\s*,[^)]*\)\s*\{',
                      r'\{if\(a>=graph_\.children\.size\(\)\)\{(AI_LOGGER\([^;]*\);)?autob=Belief\(S\);b\.fill\(1\.0/S\);returnsampleAction\(b,horizon\);\}constauto&obs=graph_\.children\[a\]\.children;',
                      r'\{constauto&obs=graph_\.children\[a\]\.children;', 'POMCP::sampleAction(a, o, horizon)')
-    walk_stop, draw_lo = check_graph(E.strip_comments(E.read(GRAPH)), rs, ps, E.strip_comments(E.read(PROB)))
+    walk_stop, draw_lo, leaf_v = check_graph(E.strip_comments(E.read(GRAPH)), rs, ps, E.strip_comments(E.read(PROB)))
     b = lambda x: 'true' if x else 'false'
     i = lambda k: f'({k})' if k < 0 else str(k)
     out = f'''/- GENERATED by tools/extract_c19.py from {MCTS}, {POMCP}, {RPOMCP}, {ROLL} — do not edit. -/
@@ -230,6 +235,9 @@ def pomcpRollGuard : Bool := {b(pguard)}
 def mctsAdvGuard : Bool := {b(madv)}
 /-- {POMCP} `POMCP::sampleAction(a, o, horizon)` tests `a >= graph_.children.size()` before indexing `graph_.children[a]` -/
 def pomcpAdvGuard : Bool := {b(padv)}
+/-- {RPOMCP} `rPOMCP::simulate`, leaf branch: the datapoint passed upwards is also averaged into the leaf's own value
+    (`ot->second.V += (immAndFutureRew - ot->second.V) / N`; repaired form, fixes/C19-4) -/
+def rpomcpLeafV : Bool := {b(leaf_v)}
 /-- {GRAPH} `HeadBeliefNode::sampleBelief`: after `pick -= count` the walk stops when `pick < sampleWalkStop` -/
 def sampleWalkStop : Int := {walk_stop}
 /-- {GRAPH} `HeadBeliefNode::sampleBelief`: the draw is uniform on `[sampleDrawLo, beliefSize_]` -/
